@@ -256,25 +256,52 @@ def run_impl(cfg):
         Ind = make_list_ind(Fit)
 
     # ---- operators ----
+    STYLES = ("inplace", "functional", "swapped", "fresh")
+
+    def style():
+        st = cfg.get("opstyle", "inplace")
+        return rng.choice(STYLES) if st == "mixed" else st
+
+    def bump(x):
+        # make sure the genotype really changes (a stale fitness must be visible)
+        if len(list(x)) > 0:
+            x[0] = (x[0] + 1) % 4
+        else:
+            x.append(1)
+
     def s_mate(a, b):
-        # scripted crossover: exchange tails in place; sometimes returns brand new objects
+        # scripted crossover: exchange tails.
+        #   inplace    : modifies its arguments and returns them
+        #   swapped    : modifies its arguments and returns them in the other order
+        #   functional : leaves its arguments alone and returns modified deep copies, which still carry
+        #                the (now stale) fitness of the arguments -- the caller must invalidate the RETURNED objects
+        #   fresh      : modifies its arguments and returns brand new objects with an unset fitness
+        st = style()
+        if st == "functional":
+            a, b = copy.deepcopy(a), copy.deepcopy(b)
         k = rng.randint(0, 3)
         ta, tb_ = list(a)[k:], list(b)[k:]
         a[k:], b[k:] = tb_, ta
-        if cfg.get("newobj") and rng.random() < 0.5:
+        bump(a)
+        bump(b)
+        if st == "swapped":
+            return b, a
+        if st == "fresh":
             return Ind(list(a)), Ind(list(b))
         return a, b
 
     def s_mutate(a):
+        st = style()
+        if st == "functional":
+            a = copy.deepcopy(a)
         r = rng.random()
         if r < 0.4 or len(list(a)) == 0:
             a.append(rng.randint(0, 3))
         elif r < 0.6 and len(list(a)) > 1:
             a.pop()
         else:
-            i = rng.randrange(len(list(a)))
-            a[i] = (a[i] + 1) % 4
-        if cfg.get("newobj") and rng.random() < 0.3:
+            bump(a)
+        if st == "fresh":
             return Ind(list(a)),
         return a,
 
@@ -669,7 +696,8 @@ def base_cfg(rng, kind, n=None, ngen=None):
            "ngen": rng.randint(0, 4) if ngen is None else ngen, "n": n,
            "genos": [[rng.randint(0, 3) for _ in range(rng.randint(1, 5))] for _ in range(n)],
            "preeval": [rng.random() < rng.choice([0.0, 0.5, 1.0]) for _ in range(n)],
-           "hofsize": rng.choice([1, 1, 2, 3]), "newobj": rng.random() < 0.3,
+           "hofsize": rng.choice([1, 1, 2, 3]),
+           "opstyle": rng.choice(["inplace", "functional", "swapped", "fresh", "mixed", "mixed"]),
            "map": rng.choice(["default", "default", "eager"]),
            "ops": rng.choice(["scripted", "scripted", "real"])}
     if cfg["ops"] == "real":
@@ -839,6 +867,29 @@ def main(run):
     for ngen in (0, 1, 2, 3):
         for _ in range(3):
             do(gen_gu(rng, ngen=ngen))
+
+    # ---- every operator style x extreme / mid probabilities, in the four loops that vary individuals ----
+    # (operators that return new objects still carrying the argument's fitness, that return their arguments
+    #  swapped, that work in place, that return new unevaluated objects)
+    for kind in ("simple", "plus", "comma", "harm"):
+        for st in ("functional", "swapped", "inplace", "fresh"):
+            for cx, mut in ((0.0, 1.0), (1.0, 0.0), (0.5, 0.5), (0.0, 0.5), (0.5, 0.0), (1.0, 1.0)):
+                if kind in ("plus", "comma") and cx + mut > 1.0:
+                    continue
+                for rep in range(run.scale(1, 3)):
+                    if kind == "simple":
+                        cfg = gen_simple(rng, n=rng.randint(2, 4), ngen=2)
+                    elif kind == "harm":
+                        cfg = gen_harm(rng, n=rng.randint(2, 4), ngen=2)
+                    else:
+                        cfg = gen_mu(rng, kind, n=rng.randint(2, 4), ngen=2)
+                        cfg["mu"] = max(2, cfg["mu"])
+                        cfg["lam"] = max(cfg["mu"], cfg["lam"], 3)
+                    cfg.update({"ops": "scripted", "opstyle": st, "cxpb": cx, "mutpb": mut,
+                                "preeval": [True] * cfg["n"]})
+                    if kind != "harm":
+                        cfg["genos"] = [[rng.randint(0, 3) for _ in range(rng.randint(1, 5))] for _ in range(cfg["n"])]
+                    do(fix_guards(cfg))
 
     # ---- seeded random ----
     nrand = run.scale(120, 1500)
